@@ -176,3 +176,56 @@ def run(prog, rule="R-STRSCAN"):
     res.counts["char_pointer_walks"] = nb
     res.floor("char-pointer walks governed by the characters", nb, 5)
     return res
+
+
+def run_advance(prog, rule="R-STRADV", floor=4):
+    """a scanning pointer is advanced over a token by the token's length only.  `p += strlen (tok)` lands on the character behind the token,
+    which the next scan examines (it may be the terminator); `p += strlen (tok) + k` with k > 0 steps over k characters nobody looked at -
+    over the terminator itself when the token ends the line (a last line without newline).  Five of the six advances of the readers use
+    the exact length; an advance with a positive constant added is reported unless the skipped character is tested on the same path."""
+    from ..core import const_of
+    res = RuleResult(rule, "every advance of a char pointer by a strlen () adds no positive constant (the character behind a token is examined, not skipped)")
+    n = 0
+    for f in sorted(prog.funcs.values(), key=lambda x: x.key):
+        if f.live is None or "_dbl." in f.unit or "_mpf." in f.unit or not (f.unit.startswith("qsopt_ex/") or f.unit.startswith("esolver/")):
+            continue
+        for b, i, e in f.elements():
+            if e[0] != "A" or e[1][1] not in ("+=", "="):
+                continue
+            lhs, rhs = e[1][2], e[1][3]
+            l0 = strip(lhs)
+            ty = f.var_type(l0) or ""
+            if not ty and isinstance(l0, list) and l0 and l0[0] == "m":
+                rn, fn_ = l0[2].split("::")
+                for key in (rn, "struct " + rn):
+                    r = prog.records.get(key)
+                    if r:
+                        for f2, ft, ct in r["fields"]:
+                            if f2 == fn_:
+                                ty = ct or ft
+            if "char" not in ty or "*" not in ty:
+                continue
+            has_len = any(isinstance(nd, list) and nd and nd[0] == "c" and (callee(nd) or "") == "strlen" for nd in walk(rhs))
+            if not has_len:
+                continue
+            if e[1][1] == "=" and show(lhs) not in show(rhs):
+                continue
+            n += 1
+            res.obligations += 1
+            res.nontrivial += 1
+            extra = 0
+            for nd in walk(rhs):
+                if isinstance(nd, list) and nd and nd[0] == "b" and nd[1] == "+":
+                    for x in (nd[2], nd[3]):
+                        c = const_of(x)
+                        if c is not None and c > 0:
+                            extra += c
+            if extra == 0:
+                res.sample({"site": "%s %s: %s" % (short_loc(e[2]), f.name, show(e[1])[:60]), "verdict": "advanced by the token length only"}, limit=8)
+                continue
+            res.violations.append(Violation(rule, "%s|%s advanced by a length plus %d" % (f.name.replace("mpq_", ""), show(lhs), extra), f.name, short_loc(e[2]),
+                                            "%s: the pointer is moved %d character(s) beyond the token without looking at them; when the token ends the buffer the "
+                                            "terminator is skipped and the following scans read what earlier, longer lines left behind it" % (show(e[1])[:70], extra)))
+    res.counts["pointer_advances_by_a_length"] = n
+    res.floor("advances of a char pointer by a strlen ()", n, floor)
+    return res
